@@ -616,7 +616,12 @@ def replay_states(inputs):
             for tab in ([radius] if '' in radius else [dict(radius), dict(reversed(list(radius.items())))]):
                 arg = dict(tab) if '' not in tab else float(tab[''])
                 keys_before = list(tab)
-                pub = Transitions.from_trajectory(trajectory=traj, sites=sites, floating_specie='Li', site_radius=arg, site_inner_fraction=f)
+                try:
+                    pub = Transitions.from_trajectory(trajectory=traj, sites=sites, floating_specie='Li', site_radius=arg, site_inner_fraction=f)
+                except ValueError as e_:
+                    if 'need at least one array' in str(e_):
+                        continue  # no atom ever changes its state for this table: the event builder has nothing to stack (not this property)
+                    raise
                 exp_out = _calculate_atom_states(sites=sites, trajectory=diff, site_radius=dict(tab), site_inner_fraction=1.0)
                 exp_in = _calculate_atom_states(sites=sites, trajectory=diff, site_radius=dict(tab), site_inner_fraction=f)
                 if not np.array_equal(np.asarray(pub.states), exp_out) or not np.array_equal(np.asarray(pub.inner_states), exp_in):
@@ -645,6 +650,26 @@ def replay_states(inputs):
     if nbad:
         bad.append(f'{nbad} of {T * N} assignments contradict the brute-force minimum-image distances')
     return {'reproduced': bool(bad), 'detail': f'lattice={np.round(lat.matrix, 3).tolist()} radius={radius} f={f}: ' + '; '.join(bad[:4])}
+
+
+def replay_kdtree_skewed(inputs):
+    """Witness of the known finding C02-kdtree-degenerate-cell: one atom 0.29 A from a site, both well inside a 60-degree rhombohedral cell, is
+    reported at no site.  (The periodic KD-tree of MDAnalysis assumes a reduced box, |b_x| <= a_x/2, |c_x| <= a_x/2, |c_y| <= b_y/2; at 60 degrees
+    b_x = a_x/2 exactly and its wrapping puts the site one cell away from the atom without generating the image.)"""
+    import numpy as np
+    from pymatgen.core import Element, Lattice, Structure
+    from gemdat.trajectory import Trajectory
+    from gemdat.transitions import _calculate_atom_states
+    a = float(inputs.get('a', 9.2732628705608))
+    ang = float(inputs.get('angle', 60.0))
+    lat = Lattice.from_parameters(a, a, a, ang, ang, ang)
+    site = np.array(inputs.get('site', [0.09947173, 0.69343658, 0.68547275]))
+    atom = np.array(inputs.get('atom', [0.13592477, 0.66969477, 0.68064121]))
+    sites = Structure(lat, ['Li'], [site], labels=['A'])
+    traj = Trajectory(species=[Element('Li')], coords=np.array([[atom]]), lattice=lat.matrix, time_step=1e-15)
+    got = int(np.asarray(_calculate_atom_states(sites=sites, trajectory=traj, site_radius={'': 1.0}, site_inner_fraction=1.0))[0, 0])
+    d = float(lat.get_all_distances(atom, site)[0, 0])
+    return {'reproduced': got != 0 and d < 0.9, 'detail': f'atom {d:.3f} A from the only site in a rhombohedral cell (a = {a:.4f} A, angles {ang}): state {got}, expected 0'}
 
 
 def replay_first_only(inputs):
